@@ -337,6 +337,57 @@ for _n, _t in (('rgb8', 'rgb8_pixel_t'), ('rgba16', 'rgba16_pixel_t'), ('gray32f
                       insts=[(_n, 'quick', {'T_EQP': _t})], checks=[Check('equal_n', 'h_equal_n', enforce='equal_n_memcmp', timeout=300)],
                       assumed=['memcmp(a, b, k) == 0 iff the first k bytes agree; channel values of float channels are compared bitwise by this fast path (as the library documents)']))
 
+# equal_n_fn<planar_pixel_iterator, planar_pixel_iterator>: one memcmp per channel plane over n * sizeof(channel) bytes
+# (this specialisation did not compile on the pinned tree - fixed in /repo, see known_findings.json)
+X_EQP = [X('equal_n_planar', AL, r'bool operator\(\)\(planar_pixel_iterator<IC, CS> const i1, std::ptrdiff_t n, planar_pixel_iterator<IC, CS> const i2\) const\s*\{', count=1,
+           rules=[('R8.bytes', r'(?:std::ptrdiff_t const|constexpr std::ptrdiff_t|const std::ptrdiff_t|std::ptrdiff_t) byte_size = n \* sizeof\(typename std::iterator_traits<IC>::value_type\);', 'ptrdiff_t byte_size = n * (ptrdiff_t)CH_SIZE;', True),
+                  ('R8.nch', r'mp11::mp_size<CS>::value', 'NCH', True),
+                  ('R11.memcmp', r'memcmp\(dynamic_at_c\(i1, i\), dynamic_at_c\(i2, i\), byte_size\) != 0', '!PLANE_EQ(i, byte_size)', True)])]
+EQP_C = r"""
+#ifndef true
+#define true 1
+#define false 0
+#endif
+typedef struct { int dummy; } pl_t;
+/* ghost: g_eq[k] = number of leading BYTES on which plane k of the two ranges agree (arbitrary) */
+ptrdiff_t g_eq[5]; int g_cmp[5];
+static _Bool PLANE_EQ(ptrdiff_t k, ptrdiff_t bytes) { __CPROVER_assert(0 <= k && k < NCH, "dynamic_at_c: plane index inside the colour space"); __CPROVER_assert(bytes >= 0, "memcmp length is non-negative"); return g_eq[k] >= bytes; }
+#define PL_EQ(K) ((K) >= NCH || g_eq[K] >= n * (ptrdiff_t)CH_SIZE)
+_Bool equal_n_planar(pl_t i1, ptrdiff_t n, pl_t i2)
+__CPROVER_requires(0 <= n && n <= ((ptrdiff_t)1 << 40) && 0 <= g_eq[0] && 0 <= g_eq[1] && 0 <= g_eq[2] && 0 <= g_eq[3] && 0 <= g_eq[4])
+__CPROVER_assigns()
+__CPROVER_ensures(RET == (PL_EQ(0) && PL_EQ(1) && PL_EQ(2) && PL_EQ(3) && PL_EQ(4)))    /* true exactly when every plane agrees on all n channel values */
+@@equal_n_planar@@
+#ifndef VERIF_NATIVE
+void h_equal_n_planar(void){ pl_t a, b; ptrdiff_t n; equal_n_planar(a, n, b); __CPROVER_assert(0, "VACUITY"); }
+#endif
+"""
+PROBE_EQP = r"""
+  P_VAL("CH_SIZE", (long)sizeof(channel_type<EQP>::type)); P_VAL("NCH", (long)num_channels<EQP>::value);
+"""
+REPLAY_EQP = r"""
+#include <boost/gil.hpp>
+#include "vreplay.hpp"
+using namespace boost::gil;
+template <typename Img> static long run(const char* what) { long bad = 0;
+  for (int W = 0; W <= 4; W++) for (int H = 0; H <= 3; H++) { Img a(W, H), b(W, H); typename Img::value_type p; static_fill(p, 7); fill_pixels(view(a), p); fill_pixels(view(b), p);
+    if (!equal_pixels(const_view(a), const_view(b))) { if (!bad) std::printf("%s %dx%d: equal images compare unequal\n", what, W, H); bad++; }
+    for (int y = 0; y < H; y++) for (int x = 0; x < W; x++) for (int c = 0; c < (int)num_channels<Img>::value; c++) { view(b)(x, y)[c] = 9;
+      if (equal_pixels(const_view(a), const_view(b))) { if (!bad) std::printf("%s %dx%d: images differing in channel %d of pixel (%d,%d) compare equal\n", what, W, H, c, x, y); bad++; }
+      if (W > 1 && equal_pixels(subimage_view(const_view(a), 0, 0, W, H), subimage_view(const_view(b), 0, 0, W, H))) bad++;
+      view(b)(x, y)[c] = 7; } }
+  return bad; }
+int main(int argc, char** argv){ vr::parse(argc, argv);
+  long bad = run<rgb8_planar_image_t>("rgb8_planar") + run<rgb16_planar_image_t>("rgb16_planar") + run<cmyk16_planar_image_t>("cmyk16_planar") + run<rgba32f_planar_image_t>("rgba32f_planar");
+  if (bad) REPRODUCED("%ld equal_pixels results on planar images disagree with the per-pixel comparison", bad);
+  NOT_REPRODUCED("equal_pixels on planar images agrees with the per-pixel comparison"); }
+"""
+for _n, _t in (('rgb8', 'rgb8_pixel_t'), ('rgb16', 'rgb16_pixel_t'), ('rgba8', 'rgba8_pixel_t'), ('cmyk16', 'cmyk16_pixel_t'), ('rgba32f', 'rgba32f_pixel_t')):
+    UNITS.append(Unit('equal_n_planar.' + _n, 'C04', EQP_C, extracts=X_EQP, replay=REPLAY_EQP, probe=PROBE_EQP, probe_includes=['boost/gil.hpp'],
+                      insts=[(_n, 'quick', {'T_EQP': _t})], checks=[Check('equal_n_planar', 'h_equal_n_planar', enforce='equal_n_planar', unwind=7, timeout=200, flags=['--z3'] if _n in ('cmyk16', 'rgba32f') else [])],
+                      assumed=['memcmp(a, b, k) == 0 iff the first k bytes agree', 'dynamic_at_c(planar pointer, k) is the pointer of plane k',
+                               'the plane loop has at most 5 iterations: complete unrolling (--unwind 7 --unwinding-assertions)']))
+
 META = dict(not_covered=['fill_pixels / std::fill overload, equal_pixels (equal_n_fn, memcmp lengths), for_each_pixel, generate_pixels, transform_pixels, copy_and_convert_pixels: not built',
                          'the per-pixel assignment itself (C05) and the 1-D traversability dispatch (is_1d_traversable is under contract in C03)'])
 
